@@ -93,6 +93,7 @@ func runC02(c *Ctx) {
 	// R14 (shared with C03.R6): a reply whose Write failed must end the stream — later replies written behind a dropped
 	// one are not a prefix of the correct replies
 	checkWriteFailureLatched(c, "R14")
+	checkResponsesAreNeverNil(c, "R15")
 	pos := func(in ssa.Instruction) string { return p.Pos(in.Pos()) }
 	handle := p.Func("handlePacket")
 	worker := p.Func("(*RequestServer).packetWorker")
@@ -1480,4 +1481,36 @@ func checkIDMethods(c *Ctx, rule string) {
 		c.check(good, rule, "id() of "+t.Name()+" is its ID", p.Pos(fn.Pos()), "return p.ID", "id() of "+t.Name()+" returns "+got+", not the ID field: replies built from id() (the read-only refusal, every error status) go out under another request's id, and the client files the request under an id the reply will not carry")
 	}
 	c.check(n >= 25, rule, "id methods", "?", fmt.Sprintf("%d types with an ID field and an id method", n), fmt.Sprintf("only %d id methods found", n))
+}
+
+// checkResponsesAreNeverNil (C02.R15): every function of the servers that produces a responsePacket produces one.
+// A nil response reaches the packet manager as "nothing to send": the worker that hands it on dereferences it (the
+// session dies) or the request simply stays unanswered, and every reply ordered behind it waits.
+func checkResponsesAreNeverNil(c *Ctx, rule string) {
+	p := c.P
+	n := 0
+	for _, fn := range p.LibFuncs() {
+		if fn.Package() != p.Sftp || fn.Blocks == nil {
+			continue
+		}
+		res := fn.Signature.Results()
+		if res.Len() != 1 || typeName(res.At(0).Type()) != "responsePacket" {
+			continue
+		}
+		ord := 0
+		for _, rl := range returnLeaves(fn, 0) {
+			n++
+			ord++
+			at := p.Pos(rl.v.Pos())
+			if at == "?" && rl.block != nil && len(rl.block.Instrs) > 0 {
+				at = p.Pos(rl.block.Instrs[len(rl.block.Instrs)-1].Pos())
+			}
+			if at == "?" {
+				at = p.Pos(fn.Pos())
+			}
+			c.check(!isNilConst(rl.v), rule, fmt.Sprintf("%s: response #%d is not nil", fnName(fn), ord), at, "a packet",
+				"this function can return a nil responsePacket: the request is never answered (or the worker panics on it) and the replies ordered behind it are held back")
+		}
+	}
+	c.check(n >= 20, rule, "responses produced by the servers", "?", fmt.Sprintf("%d", n), fmt.Sprintf("only %d found", n))
 }
